@@ -135,9 +135,13 @@ class PullSetupOpsOutOfLoops(RewritePattern):
                     # all unsafe vals from the safe vals.
                     acc_fields_to_values[key] = val
                     safe_values.add(key)
-        # remove all unsafe vals form potentially safe values
+        # remove all unsafe vals form potentially safe values, and all values that are already set up
+        # before the loop (e.g. because we hoisted them earlier, otherwise we would hoist them forever)
         # also pick a deterministic, fixed order for the rest of the rewrite
-        loop_invariant_options = tuple(sorted(safe_values - unsafe_vals))
+        initial_state = infer_state_of(get_initial_value_for_scf_for_lcv(loop_op, op.in_state))
+        loop_invariant_options = tuple(
+            sorted(key for key in safe_values - unsafe_vals if initial_state.get(key) != acc_fields_to_values[key])
+        )
 
         # nothing to do if everything is loop dependent
         if not loop_invariant_options:
